@@ -27,6 +27,18 @@ ASSUMPTIONS = ["theorems are about exact real arithmetic; binary64 rounding is c
                "the composed call is not the sequential action",
                "ounce unit factors are inputs (positive reals)"]
 
+DEFINITIONAL = ["C03_append_returns_index", "C03_error_leaves_state", "C03_single_equals_stack_row", "C03_discard_z_only_drops_z"]
+BASE_RULE = RULE
+_STATS = {}
+
+
+def _count(key):
+    """what was actually reached in this run, by method / outcome / query form; appended to RULE for the evidence"""
+    global RULE
+    _STATS[key] = _STATS.get(key, 0) + 1
+    RULE = BASE_RULE + " | reached in this run: " + ", ".join("%s=%d" % kv for kv in sorted(_STATS.items()))
+
+
 UNITS = ["mm", "cm", "m", "in", "ft"]
 
 
@@ -297,6 +309,13 @@ def run_impl(c):
                 ob = run_query(ct, e)
                 ob["n"] = len(ct.transforms)
                 obs.append(ob)
+                r_ = e["range"]
+                rk = "all" if r_ is None else ("sub" if 0 <= r_[0] <= r_[1] <= ob["n"] else "wild")
+                if e["q"] == "matrix":
+                    _count("query:matrix/%s/%s" % (rk, "rev" if e["rev"] else "fwd"))
+                else:
+                    _count("query:call/%s/%s%s%s%s" % (rk, "rev" if e["rev"] else "fwd", "/vector" if e["asvec"] else "",
+                                                        "/discard_z" if e["discard"] else "", "/int64" if e.get("int") else ""))
                 continue
             before = len(ct.transforms)
             r = call_impl(lambda: apply_op(ct, e))
@@ -306,6 +325,8 @@ def run_impl(c):
             else:
                 r = {"index": int(r), "len_before": before, "len_after": len(ct.transforms)}
             r["factor"] = float(ounce.factor(e["from"], e["to"])) if e["op"] == "convert_units" else None
+            _count("op:%s/%s" % (e["op"] + ("+inverse" if e["op"] == "append" and e["r"] is not None else ""),
+                                 r.get("raise", "accepted")))
             obs.append(r)
         pairs = [[np.asarray(f, dtype=np.float64).reshape(-1).tolist(), np.asarray(i, dtype=np.float64).reshape(-1).tolist()]
                  for f, i in ct.transforms]
@@ -459,13 +480,19 @@ def oracle(c, o):
     iv = [_mat(i, 4) for _, i in o["pairs"]]
     probe = [Fr(1, 2), Fr(-3), Fr(5, 4)]
     for i, ((op, act), f, r) in enumerate(zip(actions, fw, iv)):
-        explicit_inverse_given = op["op"] == "append" and op["r"] is not None
         mag = max([1] + [abs(x) for row in f + r for x in row])
         if f[3] != [0, 0, 0, 1]:
             return "step %d (%s): forward matrix is not affine" % (i, op["op"])
-        if not explicit_inverse_given or True:
-            if not _near_I(_mm(r, f), TOL * mag * mag) or not _near_I(_mm(f, r), TOL * mag * mag):
-                return "step %d (%s): stored inverse does not undo the stored forward matrix" % (i, op["op"])
+        if not _near_I(_mm(r, f), TOL * mag * mag) or not _near_I(_mm(f, r), TOL * mag * mag):
+            return "step %d (%s): stored inverse does not undo the stored forward matrix" % (i, op["op"])
+        if op["op"] in ("rotate_rodrigues", "reorient", "rotate_matrix"):
+            # whatever the parametrisation, a rotation step stores a proper rotation about the origin
+            blk = [row[:3] for row in f[:3]]
+            bad = _c11._proper(blk, "step %d (%s)" % (i, op["op"]), Fr(1, 10 ** 9))
+            if bad:
+                return bad
+            if [f[k][3] for k in range(3)] != [0, 0, 0]:
+                return "step %d (%s): rotation step has a translation column" % (i, op["op"])
         if act is not None:
             want, got = act(probe), _apply(f, probe)
             if any(abs(a - b) > TOL * max(1, abs(a)) for a, b in zip(want, got)):
